@@ -101,6 +101,9 @@ def gen_plan(seed, tier):
     if r2.random() < 0.5:
         plan['paths'].append('stopresume')
         plan['stop_save_every'] = r2.choice([None, None, 1, 2])
+        r4 = sub_rng(seed, 'plan.c06.sigint')
+        if r4.random() < 0.35:
+            plan['stop_by'] = 'sigint'; plan['sigint_at'] = r4.randint(2, 40)
     return plan
 
 
@@ -428,8 +431,20 @@ def run_stopresume_path(plan, run, violate, stats):
     h.solver.SetSaveFrequency(every, path)
     run.owner = 'stopresume'
     kw = _solve_kwargs(plan) if plan.get('solve_kw') else {}
+    by_sigint = plan.get('stop_by') == 'sigint'
+    if by_sigint:
+        # the stop is the user's: Ctrl-C during the run, mystic's handler enabled, 'exit' answered at the prompt.  The restart file
+        # written at that stop and the stopped solver are the same solver: whatever the one does next, the other does too
+        h.solver.enable_signal_handler()
+        h.solver.SetEvaluationLimits(G2, None)
+        fkey = ('cost', run.counts['cost'] + int(plan.get('sigint_at', 5)))
+        run.faults[fkey] = {'at': 'cost#*', 'kind': 'interrupt', 'tty': ['exit']}
+        run.probe('c06.stopresume.by_sigint')
     try:
-        h.solver.Solve(h.cost, callback=env.SimCallback(), **kw)
+        try:
+            h.solver.Solve(h.cost, callback=env.SimCallback(), **kw)
+        finally:
+            if by_sigint: run.faults.pop(fkey, None)       # (not reached: the run ended first -- an ordinary stop)
     except (env.SimCrash, env.SimHang):
         raise
     except Exception as e:
@@ -445,6 +460,12 @@ def run_stopresume_path(plan, run, violate, stats):
         run.owner = owner
         hh.step_snaps = []
         solver.SetEvaluationLimits(G2, None)
+        if by_sigint:
+            # first as a caller who just steps on (the exit request is still pending, or it is not: the same for both), then Solve
+            for _ in range(2):
+                m_ = solver.Step(callback=env.SimCallback())
+                hh.step_snaps.append(dict(hh.snap(solver), _msg=observe.canon_msg(m_)))
+            solver.disable_signal_handler()
         solver.Solve(callback=env.SimCallback())
         return list(hh.step_snaps)
     try:
